@@ -593,7 +593,16 @@ fn shake_0(expression: Expression) -> Expression {
             }
         }
         Expression::Match(m, expression) => {
-            let expression = shake_0(*expression);
+            // NOTE: A group of one must stay a group, the solver counts a group's entries
+            let expression = match *expression {
+                Expression::BooleanGroup(symbol, expressions) if expressions.len() == 1 => {
+                    Expression::BooleanGroup(
+                        symbol,
+                        expressions.into_iter().map(shake_0).collect(),
+                    )
+                }
+                expression => shake_0(expression),
+            };
             Expression::Match(m, Box::new(expression))
         }
         Expression::Negate(expression) => {
